@@ -154,6 +154,17 @@ def corpus(tier):
                                       {'do': 'reset', 'user': 'u0', 'after': 2000, 'gap': delay + 1.5},
                                       {'do': 'request', 'user': 'u0', 'file': 0, 'gap': gap},
                                       {'do': 'request', 'user': 'u1', 'file': 0, 'gap': gap}], size=60000, speed_kbps=20))
+    # a user with a running and a queued upload goes offline: when the running one has finished the queued one must wait
+    for friend in (False, True):
+        two = [{'name': 'u0', 'status': 'online', 'friend': friend, 'privileged': False, 'files': 2},
+               {'name': 'u1', 'status': 'online', 'friend': False, 'privileged': False, 'files': 1}]
+        for later in (None, 'u1'):
+            evs = [{'do': 'request', 'user': 'u0', 'file': 0, 'gap': 0.0}, {'do': 'request', 'user': 'u0', 'file': 1, 'gap': 0.0},
+                   {'do': 'status', 'user': 'u0', 'status': 'offline', 'privileged': False, 'gap': 1.0}]
+            if later:
+                evs.append({'do': 'request', 'user': later, 'file': 0, 'gap': 12.0})
+            evs.append({'do': 'nothing', 'gap': 15.0})      # several idle management cycles
+            out.append(plan(two, 1, evs, size=60000, speed_kbps=20))
     # offline user never started; comes online later
     out.append(plan([{'name': 'u0', 'status': 'offline', 'friend': False, 'privileged': False, 'files': 1},
                      {'name': 'u1', 'status': 'online', 'friend': False, 'privileged': False, 'files': 1}], 2,
